@@ -435,6 +435,63 @@ def _ord_variants(p):
     return None
 
 
+def _plain_place(x):
+    x = peel(x)
+    while x.get('k') == 'Field':
+        x = peel(x['ch'][0])
+    return x.get('k') == 'Path' and x.get('res') == 'local'
+
+
+def _lit_match_chain(e):
+    scr = e['ch'][0]
+    ty = peel(scr).get('ty', '')
+    if ty not in ('i8', 'i16', 'i32', 'i64', 'isize', 'u8', 'u16', 'u32', 'u64', 'usize') or not _plain_place(scr):
+        return None
+    arms = e['arms']
+    kinds = []
+    for a in arms:
+        p = a['pat']
+        if p.get('k') == 'Expr' and p['e'].get('k') == 'Lit' and 'guard' not in a:
+            kinds.append('lit')
+        elif p.get('k') == 'Binding' and not p.get('ch') and not p.get('mut'):
+            kinds.append('bind')
+        elif p.get('k') == 'Wild':
+            kinds.append('wild')
+        else:
+            return None
+    if 'guard' in arms[-1] or kinds[-1] == 'lit' or 'lit' not in kinds and 'bind' not in kinds:
+        return None
+
+    def blk(x, lets=()):
+        if not lets and x.get('k') == 'Block':
+            return x
+        return {'k': 'Block', 'stmts': list(lets), 'expr': x, 'sp': x.get('sp'), 'ty': x.get('ty')}
+
+    def build(i):
+        a, kd = arms[i], kinds[i]
+        last = i == len(arms) - 1
+        lets = []
+        if kd == 'bind':
+            lets = [{'k': 'Let', 'pat': a['pat'], 'init': scr, 'sp': a['pat'].get('sp')}]
+        if kd == 'lit':
+            lit = dict(a['pat']['e'])
+            if lit.get('neg'):
+                lit = {'k': 'Unary', 'op': 'Neg', 'ty': ty, 'ch': [{'k': 'Lit', 'v': lit['v'], 'ty': ty}]}
+            cond = {'k': 'Binary', 'op': 'Eq', 'ty': 'bool', 'ch': [scr, lit], 'sp': a['pat'].get('sp')}
+        elif 'guard' in a:
+            cond = a['guard']
+        else:
+            cond = None
+        if cond is None or last:
+            return blk(a['body'], lets)
+        iff = {'k': 'If', 'ty': e.get('ty'), 'sp': e.get('sp'), 'ch': [cond, blk(a['body']), build(i + 1)]}
+        return blk(iff, lets) if lets else iff
+    out = build(0)
+    if out.get('k') == 'If':
+        out['id'] = e.get('id')
+    return out
+
+
 def _int_cmp_match(e):
     scr = peel(e['ch'][0])
     if scr.get('k') != 'MethodCall' or scr.get('method') != 'cmp' or not callee_is(scr, 'Ord::cmp') or \
@@ -691,6 +748,39 @@ def normalize(e):
                     len(rv['ch']) == 2 and peel(rv['ch'][1]).get('local') == errarm[0]['pat']['ch'][0].get('local'):
                 return {'k': 'Match', 'src': 'TryDesugar', 'ch': [e['ch'][0]], 'arms': e['arms'],
                         'sp': e.get('sp'), 'id': e.get('id'), 'ty': e.get('ty'), 'manual_try': True}
+    # `match c { true => A, false => B }` (second arm possibly `_`) is `if c { A } else { B }`
+    if k == 'Match' and not e.get('src', '').endswith('Desugar') and len(e.get('arms', [])) == 2 and \
+            not any('guard' in a for a in e['arms']):
+        l0, l1 = pat_src(e['arms'][0]['pat']), pat_src(e['arms'][1]['pat'])
+        pick = (0, 1) if l0 == 'true' and l1 in ('false', '_') else (1, 0) if l0 == 'false' and l1 in ('true', '_') else None
+        if pick is not None:
+            def blk_(x):
+                return x if x.get('k') == 'Block' else {'k': 'Block', 'stmts': [], 'expr': x,
+                                                        'sp': x.get('sp'), 'ty': x.get('ty')}
+            return {'k': 'If', 'ch': [e['ch'][0], blk_(e['arms'][pick[0]]['body']), blk_(e['arms'][pick[1]]['body'])],
+                    'sp': e.get('sp'), 'id': e.get('id'), 'ty': e.get('ty')}
+    # `match s { 0 => A, m if g(m) => B, m => C }` over a plain place `s`: an if-chain in arm order
+    # (first-match semantics made explicit); a binding arm binds the scrutinee
+    if k == 'Match' and not e.get('src', '').endswith('Desugar') and len(e.get('arms', [])) >= 2:
+        r = _lit_match_chain(e)
+        if r is not None:
+            return r
+    # `c.then(|| x)` is `if c { Some(x) } else { None }`
+    if k == 'MethodCall' and e.get('method') == 'then' and len(e.get('ch', [])) == 2 and \
+            callee_is(e, 'bool::then') and peel(e['ch'][1]).get('k') == 'Closure' and \
+            not peel(e['ch'][1]).get('params'):
+        x_ = peel(e['ch'][1])['ch'][0]
+        ty_ = e.get('ty')
+        inner_ty = x_.get('ty')
+        some_ = {'k': 'Call', 'ty': ty_, 'callee_res': 'Ctor(Variant, Fn)', 'callee': 'std::prelude::v1::Some',
+                 'targs': [inner_ty], 'sp': e.get('sp'),
+                 'ch': [{'k': 'Path', 'ty': 'fn', 'res': 'Ctor(Variant, Fn)', 'def': 'std::prelude::v1::Some',
+                         'targs': [inner_ty], 'sp': e.get('sp')}, x_]}
+        none_ = {'k': 'Path', 'ty': ty_, 'res': 'Ctor(Variant, Const)', 'def': 'std::prelude::v1::None',
+                 'targs': [inner_ty], 'sp': e.get('sp')}
+        return {'k': 'If', 'ty': ty_, 'sp': e.get('sp'), 'id': e.get('id'),
+                'ch': [e['ch'][0], {'k': 'Block', 'ty': ty_, 'stmts': [], 'expr': some_, 'sp': e.get('sp')},
+                       {'k': 'Block', 'ty': ty_, 'stmts': [], 'expr': none_, 'sp': e.get('sp')}]}
     # `o.map_or(d, |x| x)` is `o.unwrap_or(d)`
     if k == 'MethodCall' and e.get('method') == 'map_or' and len(e.get('ch', [])) == 3 and \
             callee_is(e, 'Option::map_or'):
